@@ -5,7 +5,7 @@
    node populations, ignore lists, counts and seeds (profile "select") and through every
    Store / Ready / Migrate / timeout in the application histories. *)
 From SaoVerif Require Import Base.Prelude Base.Ints Base.Dec Model.Did Model.Types Model.Monad Model.Select Model.Node
-     Model.Storage Model.Sao Model.Hooks Model.App Model.Spec Proofs.SelectFacts Proofs.SelectApp Proofs.Placement.
+     Model.Storage Model.Sao Model.Hooks Model.App Model.Spec Proofs.SelectFacts Proofs.SelectApp Proofs.Placement Proofs.MigratePl.
 
 (* Whatever the node population, ignore list, requested count and seed: the chosen
    providers are pairwise distinct, each is a registered node that is online, serves
@@ -72,3 +72,19 @@ Theorem C15_timeout_new_shards_fresh : forall cx oid s s' o,
     (forall id2 sh2, id2 <> id -> shards s' !! id2 = Some sh2 -> shards s !! id2 = None -> sh_sp sh2 <> sh_sp sh').
 Proof. exact timeout_new_shards_fresh. Qed.
 Print Assumptions C15_timeout_new_shards_fresh.
+
+(* the migration call site (Migrate): every shard the transaction creates is a Migrating shard handed over by the
+   requesting provider, listed by its order, on a provider that is eligible for its size and differs from the
+   provider of every other shard that order lists when the transaction ends (shards created earlier in the same
+   transaction included) *)
+Theorem C15_migrate_new_shards_fresh : forall cx creator provider data s s',
+  sao_migrate cx creator provider data s = Ok tt s' -> 0 <= cx_seed cx ->
+  fresh_above s -> 0 <= shard_count s -> shard_count s + Z.of_nat (budgets s data) < two64 ->
+  (forall oid o id, orders s !! oid = Some o -> In id (o_shards o) -> id < shard_count s) ->
+  forall id sh', shards s' !! id = Some sh' -> shards s !! id = None ->
+    sh_status sh' = ShardMigrating /\ sh_from sh' = provider /\
+    (exists o', orders s' !! sh_order sh' = Some o' /\ In id (o_shards o') /\
+       forall id0 sh0, In id0 (o_shards o') -> id0 <> id -> shards s' !! id0 = Some sh0 -> sh_sp sh0 <> sh_sp sh') /\
+    (exists n, nodes s !! sh_sp sh' = Some n /\ eligible (pledges s) (i64 (sh_size sh')) (mkCand (sh_sp sh') n) = true).
+Proof. exact migrate_new_shards_fresh. Qed.
+Print Assumptions C15_migrate_new_shards_fresh.
